@@ -24,6 +24,7 @@ RULE = (
     "VHD.disk.read_sectors; plus both repository fixtures against a naive reference reader. Non-trivial: a "
     "dynamic disk with >=2 blocks and non-sequential placement or holes, or a fixed disk read across its end; "
     "distinct = distinct (type, block size, BAT, size) signatures."
+    " Every stream additionally goes through: continuation sequences (read, visit elsewhere or have another user move the shared handles, resume at the earlier end / buffer end), reads under an injected transient backend I/O error followed by a retry on the same object (the failed call may raise; returned bytes must be right), and long reads (whole disk up to 24 MiB, else 6-24 MiB windows)."
 )
 ASSUMPTIONS = [
     "the harness's VHD writer/reference reader are a faithful reading of the VHD specification",
